@@ -1281,3 +1281,135 @@ Proof.
     + rewrite <- Hex by assumption. symmetry. apply Z.mod_small. apply Rn.
     + rewrite Hcap. apply Hmod; assumption.
 Qed.
+
+(* ------------------------------------------------------------------ dot: inner product *)
+Lemma sumZ_mod_each M l : sumZ (map (fun x => x mod M) l) mod M = sumZ l mod M.
+Proof.
+  induction l as [|x l IH]; cbn [map sumZ fold_right]; [reflexivity|].
+  fold (sumZ (map (fun x => x mod M) l)). fold (sumZ l).
+  rewrite Zplus_mod, IH, Zmod_mod, <- Zplus_mod. reflexivity.
+Qed.
+
+(* the integer inner product of two equally shaped matrices, read in row-major order *)
+Definition inner_spec (x y : Mx) (r c : nat) : Z :=
+  sumZ (map (fun k => el x (k / c) (k mod c) * el y (k / c) (k mod c)) (seq 0 (r * c))).
+
+Theorem inner_product_correct r c x y : wfx r c x -> mrange x -> mrange y -> 0 <= maxb x ->
+  el (inner_product x y) 0 0 = inner_spec x y r c mod 2 ^ bits (inner_product x y) /\
+  (bits x + bits y <= maxb x -> el (inner_product x y) 0 0 = inner_spec x y r c).
+Proof.
+  intros W Rx Ry Hm.
+  assert (Hbx : 0 <= bits x) by (apply (inrange_nonneg_w (el x 0 0)); apply Rx).
+  assert (Hby : 0 <= bits y) by (apply (inrange_nonneg_w (el y 0 0)); apply Ry).
+  set (p := mmul x y).
+  assert (Bp : bits p = capb (bits x + bits y) (maxb x)) by reflexivity.
+  assert (Hbp : 0 <= bits p) by (rewrite Bp; unfold capb; destruct (_ >? _); lia).
+  assert (Wp : wfx r c p).
+  { unfold p, mmul. rewrite (wfx_rows r c x W), (wfx_cols r c x W). apply wfx_mnew; apply W. }
+  assert (Rp : mrange p) by (unfold p, mmul; apply mrange_mnew; fold p; rewrite <- Bp; exact Hbp).
+  destruct (sum_all_exact r c p None Wp Rp) as [Es Bs].
+  assert (Fp : flat (dat p) = map (fun k => (el x (k / c) (k mod c) * el y (k / c) (k mod c)) mod 2 ^ bits p)
+                                  (seq 0 (r * c))).
+  { unfold p, mmul. rewrite (wfx_rows r c x W), (wfx_cols r c x W). cbn [mnew dat]. rewrite flat_mk.
+    apply map_ext. intros k. rewrite wv_mul_exact by (try apply Rx; apply Ry). reflexivity. }
+  assert (Hsum : sumZ (flat (dat p)) mod 2 ^ bits p = inner_spec x y r c mod 2 ^ bits p).
+  { rewrite Fp. unfold inner_spec.
+    rewrite <- (map_map (fun k => el x (k / c) (k mod c) * el y (k / c) (k mod c)) (fun v => v mod 2 ^ bits p)).
+    apply sumZ_mod_each. }
+  unfold inner_product. fold p. destruct (bits p <? bits x + bits y) eqn:Ecap.
+  - (* capped: the sum is truncated to the products' width *)
+    split.
+    + cbn [bits]. unfold el at 1. cbn [dat get nth]. rewrite Es.
+      assert (Hmin : Z.min (bits (msum p AxNone None)) (bits p) = bits p).
+      { rewrite Bs. destruct Wp as [_ [Hr Hc]]. nia. }
+      rewrite Hmin. unfold trunc. exact Hsum.
+    + intros Hfit. rewrite Bp, capb_id in Ecap by exact Hfit. lia.
+  - (* not capped: every product and the sum are exact *)
+    assert (Bfull : bits p = bits x + bits y).
+    { rewrite Bp. unfold capb. rewrite Bp in Ecap. unfold capb in Ecap. destruct (_ >? _) eqn:E; lia. }
+    assert (Hexact : sumZ (flat (dat p)) = inner_spec x y r c).
+    { rewrite Fp. unfold inner_spec. apply sumZ_map_ext. intros k _. apply Z.mod_small.
+      rewrite Bfull. apply mul_lt_pow2; [apply Rx|apply Ry]. }
+    assert (Hval : el (msum p AxNone None) 0 0 = inner_spec x y r c) by (rewrite Es; exact Hexact).
+    split; [|intros _; exact Hval].
+    rewrite Hval. symmetry. apply Z.mod_small.
+    (* the reduction's wire is wide enough: every partial sum stays in range *)
+    assert (F : all_inrange (bits p) (flat (dat p))).
+    { apply Forall_forall. intros v Hin. rewrite Fp in Hin. apply in_map_iff in Hin.
+      destruct Hin as [k [<- _]]. apply mod_range. exact Hbp. }
+    rewrite <- Hexact.
+    unfold msum, mreduce. cbn [bits].
+    destruct (flat (dat p)) as [|v vs] eqn:El.
+    { exfalso. apply (flat_nonempty r c p Wp). exact El. }
+    inversion F as [|? ? Hv Hvs]; subst.
+    cbn [as_wvs map reduce1]. fold (as_wvs (bits p) vs).
+    rewrite (sum_fold (bits p) vs Hvs (bits p) v ltac:(lia) Hv). cbn [fst sumZ fold_right].
+    fold (sumZ vs).
+    assert (G : forall l w s, all_inrange (bits p) l -> bits p <= w -> inrange s w ->
+              inrange (s + sumZ l) (w + Z.of_nat (length l))).
+    { induction l as [|u l IHl]; intros w s Hl Hw Hs; cbn [sumZ fold_right length].
+      - rewrite Z.add_0_r. replace (w + Z.of_nat 0) with w by lia. exact Hs.
+      - fold (sumZ l). inversion Hl as [|? ? Hu Hl']; subst.
+        replace (s + (u + sumZ l)) with ((s + u) + sumZ l) by ring.
+        replace (w + Z.of_nat (S (length l))) with ((w + 1) + Z.of_nat (length l)) by lia.
+        apply IHl; [exact Hl'|lia|].
+        replace (w + 1) with (Z.max w (bits p) + 1) by lia. apply wv_add_range; assumption. }
+    apply G; [exact Hvs|lia|exact Hv].
+Qed.
+
+(* ------------------------------------------------------------------ reversed, setitem, bits setter *)
+Theorem reversed_correct r c a i j : wfx r c a -> mrange a -> bits a <= maxb a ->
+  (i < r)%nat -> (j < c)%nat ->
+  el (mreversed a) i j = el a (r - 1 - i) (c - 1 - j) /\ bits (mreversed a) = bits a.
+Proof.
+  intros W R Hm Hi Hj. unfold mreversed. rewrite (wfx_rows r c a W), (wfx_cols r c a W).
+  rewrite el_mnew by assumption. rewrite capb_id by exact Hm.
+  split; [apply trunc_id, R|cbn [mnew bits]; apply capb_id; exact Hm].
+Qed.
+
+(* m[kr, kc] = x for a single position: only that element changes, to x mod 2^bits *)
+Theorem setitem_scalar r c a kr kc x rs cs i j : wfx r c a ->
+  key_set (Z.of_nat r) kr = Some (rs, rs + 1) -> key_set (Z.of_nat c) kc = Some (cs, cs + 1) ->
+  (i < r)%nat -> (j < c)%nat ->
+  exists res, msetitem_s a kr kc x = Some res /\ bits res = bits a /\
+    el res i j = if (Z.of_nat i =? rs) && (Z.of_nat j =? cs) then trunc (bits a) x else el a i j.
+Proof.
+  intros W Kr Kc Hi Hj. unfold msetitem_s. rewrite (wfx_rows r c a W), (wfx_cols r c a W), Kr, Kc.
+  replace ((rs + 1 - rs =? 1) && (cs + 1 - cs =? 1)) with true by lia.
+  eexists. split; [reflexivity|]. split; [reflexivity|].
+  unfold el at 1. cbn [dat]. rewrite get_mk by assumption. unfold in_box.
+  destruct ((Z.of_nat i =? rs) && (Z.of_nat j =? cs)) eqn:E.
+  - replace ((rs <=? Z.of_nat i) && (Z.of_nat i <? rs + 1) && (cs <=? Z.of_nat j) && (Z.of_nat j <? cs + 1))
+      with true by lia. reflexivity.
+  - replace ((rs <=? Z.of_nat i) && (Z.of_nat i <? rs + 1) && (cs <=? Z.of_nat j) && (Z.of_nat j <? cs + 1))
+      with false by lia. reflexivity.
+Qed.
+
+(* m[kr, kc] = <Matrix v>: the addressed block receives v (truncated to bits of m), the rest is unchanged *)
+Theorem setitem_block r c a kr kc v rs re cs ce i j : wfx r c a ->
+  key_set (Z.of_nat r) kr = Some (rs, re) -> key_set (Z.of_nat c) kc = Some (cs, ce) ->
+  0 <= rs -> 0 <= cs -> Z.of_nat (rows_of v) = re - rs -> Z.of_nat (cols_of v) = ce - cs ->
+  (i < r)%nat -> (j < c)%nat ->
+  exists res, msetitem_m a kr kc v = Some res /\ bits res = bits a /\
+    el res i j = if (rs <=? Z.of_nat i) && (Z.of_nat i <? re) && (cs <=? Z.of_nat j) && (Z.of_nat j <? ce)
+                 then trunc (bits a) (el v (i - Z.to_nat rs) (j - Z.to_nat cs)) else el a i j.
+Proof.
+  intros W Kr Kc Hrs Hcs Hvr Hvc Hi Hj. unfold msetitem_m.
+  rewrite (wfx_rows r c a W), (wfx_cols r c a W), Kr, Kc.
+  replace ((Z.of_nat (rows_of v) =? re - rs) && (Z.of_nat (cols_of v) =? ce - cs)) with true by lia.
+  eexists. split; [reflexivity|]. split; [reflexivity|].
+  unfold el at 1. cbn [dat]. rewrite get_mk by assumption. reflexivity.
+Qed.
+
+Lemma get_map_map (f : Z -> Z) m i j : f 0 = 0 -> get (map (map f) m) i j = f (get m i j).
+Proof.
+  intros H0. unfold get. change (@nil Z) with (map f []) at 1. rewrite map_nth.
+  rewrite <- H0 at 1. apply map_nth.
+Qed.
+
+(* the bits setter truncates every element (elem[:bits]) *)
+Theorem set_bits_correct a b i j :
+  el (mset_bits a b) i j = trunc b (el a i j) /\ bits (mset_bits a b) = b.
+Proof.
+  split; [|reflexivity]. unfold el, mset_bits. cbn [dat]. apply get_map_map. apply Zmod_0_l.
+Qed.
